@@ -374,7 +374,7 @@ func c05Shapes() []*E {
 		Hash(nil, nil), Hash([]string{"k", "j"}, []*E{Int(1), Str("s")}), Hash([]string{"k"}, []*E{List(Int(1))}),
 		ZT(List(), "[]int"), ZT(List(Int(3), Int(1)), "[]int"), ZT(List(Str("b"), Str("a")), "[]string"), ZT(List(Int(3), Int(1)), "[]float64"), ZT(List(Int(3), Int(1), Int(2)), "[3]int"),
 		ZT(Hash(nil, nil), "map[string]int"), ZT(Hash([]string{"k", "j"}, []*E{Int(1), Int(2)}), "map[string]int"), ZT(Hash([]string{"k"}, []*E{Str("v")}), "map[string]string"),
-		ZT(Hash([]string{"k", "jj"}, []*E{Str("v"), Str("w")}), "map[int]string"), ZT(Hash([]string{"k"}, []*E{Int(1)}), "map[iface]"),
+		ZT(Hash([]string{"k", "jj"}, []*E{Str("v"), Str("w")}), "map[int]string"), ZT(Hash([]string{"k"}, []*E{Int(1)}), "map[iface]"), ZT(Hash([]string{"k0", "k1", "k2", "k3", "k4", "k5", "k6"}, []*E{Int(1), Int(2), Str("v"), Int(4), Int(5), Int(6), Int(7)}), "map[mixed]"),
 		ZT(Hash([]string{"Name", "Tags"}, []*E{Str("n"), List(Str("t"))}), "struct"), ZT(Hash([]string{"Name"}, []*E{Str("n")}), "ptrstruct"),
 		ZPtr(Null()), ZPtr(Int(5)), ZPtr(Str("p")), ZPtr(ZT(List(Int(1)), "[]int")), ZTime(1700000000), ZTime(0),
 		ZT(Str("b"), "bytes"), ZT(Str("n"), "named"), ZT(Str("s"), "stringer")}
@@ -427,7 +427,7 @@ func TestC05Shapes(t *testing.T) {
 	pairShapes := []*E{Null(), Int(0), Int(2), Int(-1), Str(""), Str("ab"), Str("3"), List(), List(Int(1), Int(2)), Hash([]string{"k"}, []*E{Int(1)}),
 		ZT(List(Str("a")), "[]string"), ZT(List(Int(1)), "[]int"), ZT(Hash([]string{"k"}, []*E{Int(1)}), "map[string]int"), ZT(Hash([]string{"k"}, []*E{Str("v")}), "map[int]string"), ZT(Hash([]string{"Name"}, []*E{Str("n")}), "struct"), ZPtr(Null()), ZT(Int(2), "float64"), ZT(Int(0), "uint8"),
 		// strings that are hostile as patterns, separators and formats; a long list of unhashable elements
-		Str("z-a"), Str("([\\"), Str("%d%s%"), c05Big(func(i int) *E { return List(Int(int64(i))) })}
+		Str("z-a"), Str("([\\"), Str("%d%s%"), ZT(Hash([]string{"k0", "k1", "k2", "k3"}, []*E{Int(1), Int(2), Int(3), Int(4)}), "map[mixed]"), c05Big(func(i int) *E { return List(Int(int64(i))) })}
 	for _, ex := range c05BinaryExprs {
 		for _, x := range pairShapes {
 			for _, y := range pairShapes {
